@@ -9,7 +9,7 @@ ID = "C04"
 LEVEL = "exploration"
 RULE = ("molecules and spellings as in C03 with a stereo-rich mix: chiral atoms that open rings, close rings, do both, carry "
         "2-3 ring digits in any label order, sit first in the string or carry an implicit H; marks on chain bonds, branch-initial "
-        "bonds and ring-closure bonds at the opening end / closing end / both. Oracle: for every chiral atom the handedness bit "
+        "bonds and ring-closure bonds at the opening end / closing end / both (also on ring spans needing 2-3 index symbols); a quarter of the cases with strict=False. Oracle: for every chiral atom the handedness bit "
         "(tag == '@@') xor parity(written neighbour order -> sorted) is the same in the input (ground truth of the writer) and in "
         "the output (R1); no atom gains or loses a tag; for every bond the set of mark directions 'seen walking low->high' is "
         "the same, and no bond gains a mark. non-trivial = a chiral atom with >= 1 ring bond, or a mark on a ring-closure bond; "
